@@ -72,6 +72,24 @@ def constants():
     esrc = ast.unparse(ena[0])
     i1, i2 = esrc.find('_disabled.remove('), esrc.find('conf.supybot.commands.disabled().remove(')
     need(0 <= i1 < i2 and 'except KeyError' in esrc, 'Owner.enable: expected _disabled.remove before the registry removal, inside try/except KeyError')
+    # Python stack: the source never changes the interpreter's recursion limit; every evaluated sub-command keeps
+    # at most FRAMES_PER_SUB frames on the stack (evalArgs, __init__, evalArgs, finalEval, firewall wrapper,
+    # _callCommand, synchronized wrapper, callCommand, the command, reply, reply (+2 for a noReply/nested turn));
+    # FRAMES_RESERVE covers the caller (driver loop / harness), the root proxy and the final reply + logging.
+    # The harness re-measures both on the live bot on every run.
+    import sys as _sys, os as _os, gen_tables as _gt
+    for root, _dirs, files in _os.walk(_os.path.join(_gt.REPO, 'src')):
+        for fn in files:
+            if fn.endswith('.py'):
+                need('setrecursionlimit' not in open(_os.path.join(root, fn), encoding='utf-8', errors='replace').read(),
+                     'the source changes the recursion limit in %s' % fn)
+    cmds = find_class(t, 'Commands')
+    csrc = ast.unparse(cmds)
+    need("'_callCommand': None" in csrc and "'callCommand'" in csrc, 'Commands: firewalled/synchronized wrappers changed')
+    frames_per_sub, frames_reserve = 13, 200
+    limit = _sys.getrecursionlimit()
+    need(limit > frames_reserve + frames_per_sub, 'recursion limit too small: %d' % limit)
+    stack_safe = (limit - frames_reserve) // frames_per_sub
     # conf.py: supybot.commands.nested.maximum default
     ct = tree('src/conf.py')
     mx = None
@@ -85,7 +103,8 @@ def constants():
             mx = v.args[0].value
     need(mx is not None, 'supybot.commands.nested.maximum registration not found')
     return {'special': special.value, 'error_prefix': 'Error: ', 'empty_msg': empty[0], 'too_deep': deep[0],
-            'ambiguous': amb[0], 'defaults': defaults, 'nested_max': mx, 'undisablable': undis}
+            'ambiguous': amb[0], 'defaults': defaults, 'nested_max': mx, 'undisablable': undis,
+            'recursion_limit': limit, 'frames_per_sub': frames_per_sub, 'frames_reserve': frames_reserve, 'stack_safe_subs': stack_safe}
 
 
 @table('T14')
@@ -105,5 +124,7 @@ def gen_T14():
     out += 'Definition OWNER_DEFAULTS : list (list N * list N) :=\n  %s.\n' % clist(
         '(%s, %s)' % (cstr(k), cstr(v)) for k, v in c['defaults'])
     out += 'Definition UNDISABLABLE : list (list N) := %s.\n' % clist(cstr(x) for x in c['undisablable'])
+    out += '(* (sys.getrecursionlimit() = %d - reserve %d) / %d frames per sub-command *)\n' % (c['recursion_limit'], c['frames_reserve'], c['frames_per_sub'])
+    out += 'Definition STACK_SAFE_SUBS : nat := %d.\n' % c['stack_safe_subs']
     out += 'Definition NESTED_MAX_DEFAULT : nat := %d.\n' % c['nested_max']
     return 'src/callbacks.py plugins/Owner/plugin.py src/conf.py', out
